@@ -370,7 +370,13 @@ def gen_ret(r, spec, allow_struct=True):
 SIGS = [("_int", lambda: [Param("native", "int", "val", "in", "a0")]),
         ("_dbl", lambda: [Param("native", "double", "val", "in", "a0")]),
         ("_lng", lambda: [Param("native", "long", "val", "in", "a0")]),
-        ("_istr", lambda: [Param("native", "int", "val", "in", "a0"), Param("string", "string", "ref", "in", "a1", const=True)])]
+        ("_istr", lambda: [Param("native", "int", "val", "in", "a0"), Param("string", "string", "ref", "in", "a1", const=True)]),
+        # signatures a C `const char *` converts to: a wrapper that hands the C form to the overloaded name without the
+        # documented conversion reaches a different overload
+        ("_str", lambda: [Param("string", "string", "ref", "in", "a0", const=True)]),
+        ("_bool", lambda: [Param("bool", "bool", "val", "in", "a0")]),
+        ("_cstr", lambda: [Param("cstr", "char", "ptr", "in", "a0", const=True)]),
+        ("_sval", lambda: [Param("string", "string", "val", "in", "a0")])]
 
 
 def explicit_pattern(r, k):
@@ -393,7 +399,16 @@ def gen_overloads(r, name, cls=None, with_default=False):
     """2-4 overloads of one name (free function or method), explicit suffixes on any subset; optionally one
     member with a default argument (it stands for two overloads)"""
     k = r.randrange(2, 5)
-    sigs = r.sample(SIGS, k) if r.random() < 0.5 else SIGS[:k]
+    u = r.random()
+    if u < 0.4:
+        # f(std::string) and f(const std::string &) cannot be told apart by a call: never both
+        drop = r.choice(["_str", "_sval"])
+        sigs = r.sample([x for x in SIGS if x[0] != drop], k)
+    elif u < 0.7:
+        sigs = SIGS[:k]
+    else:
+        # std::string (const reference or by value) next to bool / const char *
+        sigs = [r.choice([SIGS[4], SIGS[7]])] + r.sample([SIGS[5], SIGS[6], SIGS[0], SIGS[1]], k - 1)
     expl = explicit_pattern(r, k)
     out = []
     dflt_at = r.randrange(k) if with_default else -1
@@ -612,6 +627,15 @@ def fixed_spec(name="ogf"):
         Func("put", [N("int", "a0")], ("void",), cls="K0", fmt_suffix="_int"),
         Func("put", [N("double", "a0")], ("void",), cls="K0"),
         Func("put", [N("long", "a0")], ("void",), cls="K0"),
+        Func("lab", [S("a0")], ("void",)),
+        Func("lab", [Param("bool", "bool", "val", "in", "a0")], ("void",)),
+        Func("lab", [Param("cstr", "char", "ptr", "in", "a0", const=True)], ("void",)),
+        Func("byv", [Param("string", "string", "val", "in", "a0")], ("void",)),
+        Func("byv", [Param("bool", "bool", "val", "in", "a0")], ("void",)),
+        Func("tag", [S("a0")], ("void",), cls="K0"),
+        Func("tag", [Param("bool", "bool", "val", "in", "a0")], ("void",), cls="K0"),
+        Func("grow", [N("int", "a0")], ("classref", "K0"), cls="K0"),
+        Func("shared", [], ("classref", "K0"), cls="K0", static=True),
         Func("tf", [N("T", "a0")], ("void",), template=["int", "double"]),
         Func("mix", [N("T", "a0"), N("U", "a1")], ("native", "double"), template=[("int", "double"), ("double", "int")],
              tparams=("T", "U")),
